@@ -326,5 +326,5 @@ func checkC17(cx *Ctx, r *Report) {
 	cx.checkEmitExactlyOne(r, "R-EMIT", "provider.(*Response).sendBackResponse", w.Func("provider.(*Response).sendBackResponse"))
 	cx.checkEmitExactlyOne(r, "R-EMIT", "provider.(*LogoutResponse).sendBackLogoutResponse", w.Func("provider.(*LogoutResponse).sendBackLogoutResponse"))
 	cx.checkPoolEscape(r)
-	r.Min("R-TPL", 14)
+	r.Min("R-TPL", 10)
 }
